@@ -573,6 +573,13 @@ impl MessageReceiver {
       }
     }
 
+    if !submessage.numbers_in_accepted_range() {
+      return warn!(
+        "Writer submessage with sequence or fragment number too large to handle. Dropping. {:?}",
+        submessage
+      );
+    }
+
     let mr_state = self.clone_partial_message_receiver_state();
     let writer_entity_id = submessage.sender_entity_id();
     let source_guid_prefix = mr_state.source_guid_prefix;
@@ -830,6 +837,13 @@ impl MessageReceiver {
           )
         }
       }
+    }
+
+    if !submessage.numbers_in_accepted_range() {
+      return warn!(
+        "Reader submessage with sequence or fragment number too large to handle. Dropping. {:?}",
+        submessage
+      );
     }
 
     match submessage {
